@@ -207,6 +207,13 @@ def alarm(seconds):
         signal.signal(signal.SIGALRM, old)
 
 
+class _Capture(io.StringIO):
+    """a stdout/stderr stand-in that survives close() (gaftools sort closes the writer it was given)"""
+
+    def close(self):
+        pass
+
+
 def run_cli(argv, timeout=20):
     """Run `gaftools <argv>` in-process. Returns dict(status, code, exc, stdout).
     status: 'ok' | 'exit' (SystemExit with non-zero code) | 'exception' | 'timeout'"""
@@ -215,8 +222,8 @@ def run_cli(argv, timeout=20):
     root = logging.getLogger()
     saved_handlers = root.handlers[:]
     old_out, old_err = sys.stdout, sys.stderr
-    sys.stdout = io.StringIO()
-    sys.stderr = io.StringIO()
+    sys.stdout = _Capture()
+    sys.stderr = _Capture()
     res = {"status": "ok", "code": 0, "exc": "", "stdout": ""}
     try:
         with alarm(timeout):
